@@ -267,7 +267,7 @@ func IsBoolNode(n Node) bool {
 //@ ensures link: sameSlice(r0, n.subscripts)
 //@ ensures forall(func(i int) bool { return implies(0 <= i && i < len(r0), is[*BinaryNode](r0[i]) && as[*BinaryNode](r0[i]).Operator() == BinarySubscript) })
 
-//@ sweep safety C04 exclude=Node).String
+//@ sweep safety C04 exclude=Node).String,regexFlags).String
 
 // ---------------------------------------------------------------------------
 // printer (C02): decisions that the canonical text depends on. outFirst /
